@@ -640,4 +640,91 @@ example : mergeMax [[⟨1, []⟩, ⟨5, []⟩, ⟨2, []⟩], [⟨3, []⟩, ⟨4,
     mostIdx [[⟨3, []⟩, ⟨4, []⟩, ⟨2, [GStat.zero]⟩], [⟨0, []⟩, ⟨9, []⟩, ⟨0, []⟩]] 1 0 8 = 1 := by
   decide +kernel
 
+
+/-- "the reference-statistics file holds the number of member cells ... and the
+numbers of member cells with CPM above 0, above 1, and at least 1" also when
+the per-worker results are added up in integer accumulators of finite width:
+if the exact totals (the arrays `precompute` writes) all lie below `2^bits`,
+the reduction with accumulators of `bits` value bits (`precomputeW`, in-place
+adds modulo `2^bits`) writes exactly the same arrays - no partial sum can
+wrap, because every partial sum is entrywise at most the final one. -/
+theorem no_wrap (bits nClusters g : Nat) (nameToRow : List (Nat × Nat))
+    (files : List (Nat × List CellRec)) (rows nProc : Nat) (buf : Buffer)
+    (h : precompute nClusters g nameToRow files rows nProc = .ok buf)
+    (hfit : fitsBits bits buf = true) :
+    precomputeW bits nClusters g nameToRow files rows nProc = .ok buf :=
+  precomputeW_eq bits nClusters g nameToRow files rows nProc buf h hfit
+
+/- 4 + 2 cells of one cluster over two workers: the totals (6) fit 3 bits -/
+example : precomputeW 3 1 1 [(0, 0), (1, 0), (2, 0), (3, 0), (4, 0), (5, 0)]
+      [(0, [⟨0, [1]⟩, ⟨1, [1]⟩, ⟨2, [1]⟩]), (1, [⟨3, [1]⟩, ⟨4, [1]⟩, ⟨5, [1]⟩])] 1 2
+    = .ok [⟨6, [⟨6, 6, 6, 0, 6⟩]⟩] ∧
+    fitsBits 3 [⟨6, [⟨6, 6, 6, 0, 6⟩]⟩] = true := by
+  decide +kernel
+
+/-- `no_wrap` for the width the CURRENT source gives the accumulators
+(`Generated.statsBufferIntBits`, regenerated from `precompute_from_anndata.py`:
+the scratch buffers are `np.zeros(.., dtype=int)` and the accumulators take the
+dtype of the first buffer): whenever the exact totals fit that width, the
+written arrays are the exact ones, so `direct`, `partition_indep`, ... apply
+to the real reduction. -/
+theorem no_wrap_int64 (nClusters g : Nat) (nameToRow : List (Nat × Nat))
+    (files : List (Nat × List CellRec)) (rows nProc : Nat) (buf : Buffer)
+    (h : precompute nClusters g nameToRow files rows nProc = .ok buf)
+    (hfit : fitsBits Generated.statsBufferIntBits buf = true) :
+    precomputeW Generated.statsBufferIntBits nClusters g nameToRow files rows nProc
+      = precompute nClusters g nameToRow files rows nProc := by
+  rw [h]
+  exact precomputeW_eq _ nClusters g nameToRow files rows nProc buf h hfit
+
+example : Generated.statsBufferIntBits = 63 ∧
+    fitsBits Generated.statsBufferIntBits [⟨6, [⟨6, 6, 6, 0, 6⟩]⟩] = true := by
+  decide +kernel
+
+/-- A sufficient condition for `no_wrap`: every integer entry of the written
+arrays is at most the total number of cells in the files (a row counts only
+its member cells, and each count is at most the row's number of cells), so
+under the hypotheses of `direct` fewer than `2^bits` cells in total means that
+everything fits - in particular fewer than `2^63` cells for the current source. -/
+theorem fits_of_few_cells (bits nClusters g : Nat) (nameToRow : List (Nat × Nat))
+    (files : List (Nat × List CellRec)) (rows nProc : Nat)
+    (hrows : 1 ≤ rows) (hproc : 1 ≤ nProc) (hntr : ∀ p ∈ nameToRow, p.2 < nClusters)
+    (hw : ∃ f ∈ files, wanted nameToRow f.2 = true)
+    (hfew : (files.flatMap (·.2)).length < 2 ^ bits) :
+    ∃ buf, precompute nClusters g nameToRow files rows nProc = .ok buf ∧
+      fitsBits bits buf = true ∧
+      precomputeW bits nClusters g nameToRow files rows nProc = .ok buf := by
+  obtain ⟨buf, e, hfit⟩ :=
+    precompute_fits bits nClusters g nameToRow files rows nProc hrows hproc hntr hw hfew
+  exact ⟨buf, e, hfit, precomputeW_eq bits nClusters g nameToRow files rows nProc buf e hfit⟩
+
+example : ((([(0, [⟨0, [1]⟩, ⟨1, [1]⟩, ⟨2, [1]⟩]), (1, [⟨3, [1]⟩, ⟨4, [1]⟩, ⟨5, [1]⟩])] :
+      List (Nat × List CellRec)).flatMap (·.2)).length) < 2 ^ 3 := by
+  decide
+
+/-- The width matters: with accumulators too narrow for the totals the
+reduction wraps.  Four and two cells of one cluster handled by two workers,
+accumulators of 2 value bits: the exact writer gives `n_cells = 6`, the
+narrow reduction `6 mod 4 = 2` (and likewise for the three counts).  (This is
+what a change that stores each worker's integer arrays in the smallest dtype
+holding its own maximum does to the totals.) -/
+theorem wrap_is_real :
+    precompute 1 1 [(0, 0), (1, 0), (2, 0), (3, 0), (4, 0), (5, 0)]
+      [(0, [⟨0, [1]⟩, ⟨1, [1]⟩, ⟨2, [1]⟩]), (1, [⟨3, [1]⟩, ⟨4, [1]⟩, ⟨5, [1]⟩])] 1 2
+      = .ok [⟨6, [⟨6, 6, 6, 0, 6⟩]⟩] ∧
+    precomputeW 2 1 1 [(0, 0), (1, 0), (2, 0), (3, 0), (4, 0), (5, 0)]
+      [(0, [⟨0, [1]⟩, ⟨1, [1]⟩, ⟨2, [1]⟩]), (1, [⟨3, [1]⟩, ⟨4, [1]⟩, ⟨5, [1]⟩])] 1 2
+      = .ok [⟨2, [⟨6, 6, 2, 0, 2⟩]⟩] := by
+  decide +kernel
+
+/- the same with 200 + 200 cells (all carrying the one name the table knows), three
+processors, and 8-bit accumulators: 400 mod 256 = 144 -/
+example : (precomputeW 8 1 0 [(0, 0)]
+      [(0, List.replicate 200 ⟨0, []⟩), (1, List.replicate 200 ⟨0, []⟩)] 200 3).toOption.map
+        (fun buf => buf.map (·.n)) = some [144] ∧
+    (precompute 1 0 [(0, 0)]
+      [(0, List.replicate 200 ⟨0, []⟩), (1, List.replicate 200 ⟨0, []⟩)] 200 3).toOption.map
+        (fun buf => buf.map (·.n)) = some [400] := by
+  decide +kernel
+
 end CTM.C09
